@@ -474,6 +474,11 @@ def knFailCb (cfg : Cfg) (r : N × Bool) : N :=
     if cfg.fix then n else { n with kn := { n.kn with st := .inited } }
   else r.1
 
+/-- insertion by (deadline, arming order) -/
+def insertTimer (a : Who × Nat × Nat) : List (Who × Nat × Nat) → List (Who × Nat × Nat)
+  | [] => [a]
+  | b :: r => if a.2.1 < b.2.1 ∨ (a.2.1 = b.2.1 ∧ a.2.2 ≤ b.2.2) then a :: b :: r else b :: insertTimer a r
+
 /-- retry timers that are due, oldest deadline (then oldest arming) first -/
 def dueTimers (n : N) : List (Who × Nat × Nat) :=
   let cand := [(Who.cl 0, n.c0.cn), (Who.cl 1, n.c1.cn), (Who.kn, n.kn)]
@@ -481,7 +486,7 @@ def dueTimers (n : N) : List (Who × Nat × Nat) :=
     match c.deadline with
     | some d => if c.st = .delay ∧ d ≤ n.now then some (w, d, c.seq) else none
     | none => none
-  due.mergeSort fun a b => a.2.1 < b.2.1 ∨ (a.2.1 = b.2.1 ∧ a.2.2 ≤ b.2.2)
+  due.foldr insertTimer []
 
 /-- `onDelayTimeout` -/
 def fireTimer (cfg : Cfg) (n : N) (w : Who) : N :=
